@@ -432,7 +432,7 @@ pub fn run(a: &Args) {
 
     // (ii) native enumerations on the corpus
     // exhaustive chunkings: 2^(n-1) schedules per message
-    let nmax = if quick { 16 } else if prop == "C06" { 18 } else { 21 };
+    let nmax = if quick { 16 } else { 18 };
     match prop.as_str() {
         "C05" => {
             let mut corp = corpus(a, seed, if quick { 150 } else { 600 }, true);
